@@ -42,8 +42,7 @@ Proof. exact table_post_traverse. Qed.
 Print Assumptions C09_table_post_traverse_binds.
 
 (* Every operand-like operator of the table (NumArgs <= 1), except del (by
-   specification) and min/max (finding), binds tighter than every infix
-   operator a user can write. *)
+   specification), binds tighter than every infix operator a user can write. *)
 Theorem C09_table_operands_bind_tighter :
   forall oi, In oi op_table -> oi_nargs oi <= 1 ->
   (forall n, In n operand_exempt -> oi_var oi <> str_of_string n) ->
@@ -51,24 +50,15 @@ Theorem C09_table_operands_bind_tighter :
 Proof. exact table_operands. Qed.
 Print Assumptions C09_table_operands_bind_tighter.
 
-(* min / max are operands by specification but carry the comparison number. *)
-Theorem C09_min_max_precedence_refuted :
-  exists a b, In a spec_classes_violated /\ In b spec_classes /\
-    exists pa pb, prec_of (fst a) = Some pa /\ prec_of (fst b) = Some pb /\
-                  N.compare pa pb <> N.compare (snd a) (snd b).
-Proof. exact min_max_refuted. Qed.
-Print Assumptions C09_min_max_precedence_refuted.
-
-(* ... with the consequence on parsing: `. | min == 1` is (. == 1) | min. *)
-Theorem C09_min_max_misparsed_refuted :
+(* min / max are operands like any other (the table gave them the comparison
+   number before fix ddd7f9c; they are now inside C09_table_matches_spec):
+   `. | min == 1` needs no parentheses and parses as . | (min == 1) *)
+Theorem C09_min_max_parsed :
   wf_termb w_minmax_term = true /\
-  parse w_minmax_flat =
-    Ok (Some (Node w_pipe (Some (Node w_eq (Some (Node w_self None None)) (Some (Node w_one None None))))
-                          (Some (Node w_min None None)))) /\
-  parse w_minmax_flat <> Ok (Some (ttree w_minmax_term)) /\
-  render (pmin w_minmax_term) <> w_minmax_flat.
-Proof. exact minmax_misparsed. Qed.
-Print Assumptions C09_min_max_misparsed_refuted.
+  render (pmin w_minmax_term) = w_minmax_flat /\
+  parse w_minmax_flat = Ok (Some (ttree w_minmax_term)).
+Proof. exact minmax_parsed. Qed.
+Print Assumptions C09_min_max_parsed.
 
 (* ---- shunting-yard and tree builder, unbounded ---- *)
 
@@ -81,8 +71,9 @@ Print Assumptions C09_tree_of_postfix.
 (* the stack invariant itself: after the tokens of e the operators of its
    right spine are on the stack and everything else has been emitted *)
 Theorem C09_stack_invariant :
-  forall e, okp e -> forall S R rest, stack_safe e S -> top_not_ta S ->
-  run (render e ++ rest) S R = run rest (List.map SOp (pending e) ++ S) (R ++ emitted e).
+  forall e, okp e -> forall S R rest, S <> [] -> stack_safe e S -> top_not_ta S ->
+  run (render e ++ rest) false false S R =
+  run rest true false (List.map SOp (pending e) ++ S) (R ++ emitted e).
 Proof. exact run_render. Qed.
 Print Assumptions C09_stack_invariant.
 
@@ -113,33 +104,38 @@ Theorem C09_same_tree_same_parse :
 Proof. exact same_tree_same_parse. Qed.
 Print Assumptions C09_same_tree_same_parse.
 
-(* (d) unbalanced brackets are rejected, for EVERY token list, unless a `)`
-   at nesting depth zero closes the implicit outer bracket *)
-Theorem C09_unbalanced_rejected_partial :
-  forall ts, ~ balanced ts -> ~ escapes_outer ts -> exists e, parse ts = Err e.
+(* (d) unbalanced brackets are rejected, for EVERY token list *)
+Theorem C09_unbalanced_rejected :
+  forall ts, ~ balanced ts -> exists e, parse ts = Err e.
 Proof. exact unbalanced_rejected. Qed.
-Print Assumptions C09_unbalanced_rejected_partial.
+Print Assumptions C09_unbalanced_rejected.
 
-(* ... and that exception is real: `1 ) ( | 2` is accepted as 1 | 2 *)
-Theorem C09_unbalanced_rejected_refuted :
-  exists ts t, ~ balanced ts /\ parse ts = Ok (Some t).
-Proof. eexists; eexists; exact close_open_accepted. Qed.
-Print Assumptions C09_unbalanced_rejected_refuted.
+(* the former exception (`1 ) ( | 2` and `)(` accepted) is gone since fix 673c42d *)
+Theorem C09_close_then_open_rejected :
+  parse w_close_open = Err (ENoOpen BParen) /\
+  parse [TClose BParen false; TOpen BParen] = Err (ENoOpen BParen).
+Proof. exact close_open_rejected. Qed.
+Print Assumptions C09_close_then_open_rejected.
 
-(* the tree builder accepts exactly the postfix lists whose arities add up
-   to one result without underflow: missing operands are rejected there *)
-Theorem C09_tree_builder_rejects_missing_operands :
-  forall ops, (exists t, create_expression_tree ops = Ok (Some t)) <->
-              (ops <> [] /\ depth_after ops 0 = Some 1%nat).
-Proof. exact tree_builder_accepts_iff. Qed.
-Print Assumptions C09_tree_builder_rejects_missing_operands.
+(* missing operands: (i) every token list in which an operand directly
+   follows a complete operand, or a prefix operator without `(`, is rejected
+   (postfix / prefix order, f x); (ii) the tree builder accepts exactly the
+   postfix lists whose arities add up to one result without underflow, so an
+   operator left without an operand is rejected there *)
+Theorem C09_missing_operand_rejected :
+  (forall ts, ~ no_juxtaposition ts -> exists e, parse ts = Err e) /\
+  (forall ops, (exists t, create_expression_tree ops = Ok (Some t)) <->
+               (ops <> [] /\ depth_after ops 0 = Some 1%nat)).
+Proof. exact (conj juxtaposition_rejected tree_builder_accepts_iff). Qed.
+Print Assumptions C09_missing_operand_rejected.
 
-(* ... but ConvertToPostfix turns some malformed infix lists into well-formed
-   postfix: `1 2 +` (operator last, no right operand) is accepted as 2 + 1 *)
-Theorem C09_missing_operand_rejected_refuted :
-  exists ts o t, o_nargs o = 2 /\ parse (ts ++ [TOp o]) = Ok (Some t).
-Proof. eexists; eexists; eexists; exact postfix_order_accepted. Qed.
-Print Assumptions C09_missing_operand_rejected_refuted.
+(* `1 2 +`, `+ 1 2`, `1 + select 2` were accepted before fix 665c233 *)
+Theorem C09_postfix_order_rejected :
+  parse [TOp w_one; TOp w_two; TOp w_add] = Err EBadExpr /\
+  parse [TOp w_add; TOp w_one; TOp w_two] = Err EBadExpr /\
+  parse [TOp w_one; TOp w_add; TOp w_select; TOp w_two] = Err EBadExpr.
+Proof. exact postfix_order_rejected. Qed.
+Print Assumptions C09_postfix_order_rejected.
 
 (* chains of equal precedence nest to the right: 1 - 2 - 3 is 1 - (2 - 3) *)
 Theorem C09_equal_precedence_nests_right :
